@@ -38,3 +38,28 @@ MUTANTS += [
     dict(property='C10', name='tauLeap records counts but moves state by counts+1 for event 0', file=S, old="        jumps[i]=n_event_occurances\n", new="        jumps[i]=n_event_occurances\n        if i == 0:\n            n_event_occurances = n_event_occurances + 1\n"),
     dict(property='C11', name='tauLeap bypasses the limit check when adaptive', file=S, old="    return  _checkJump(x, new_x, x_lims, t, tau_scale, jumps)", new="    if pre_tau is None:\n        return t + tau_scale, tau_scale, new_x, jumps, True\n    return  _checkJump(x, new_x, x_lims, t, tau_scale, jumps)"),
 ]
+SIMF = 'pygom/model/simulate.py'
+MUTANTS += [
+    dict(property='C04', name='_jump records the step size as the new time', file=SIMF, old="                    dtList.append(jump_time)", new="                    dtList.append(t)"),
+    dict(property='C04', name='_jump tau-leap keeps the old state after an accepted leap', file=SIMF, old="                        t, x = t_new, x_new", new="                        t = t_new"),
+    dict(property='C11', name='_jump passes no limits to firstReaction (exact)', file=SIMF, old="""                    t, jump_time, x, jumps, success = firstReaction(x,
+                                                                    self._state_lims,
+                                                                    t,
+                                                                    self.vMat,
+                                                                    self.eventRateVector,
+                                                                    seed=seed)
+                    if success==False:
+                        break
+                else:""", new="""                    t, jump_time, x, jumps, success = firstReaction(x,
+                                                                    [(None, None)]*len(x),
+                                                                    t,
+                                                                    self.vMat,
+                                                                    self.eventRateVector,
+                                                                    seed=seed)
+                    if success==False:
+                        break
+                else:"""),
+    dict(property='C04', name='_jump tau-leap: a rejected fall-back step is recorded', file=SIMF, old="                        if success==False:\n                            break\n\n                if success:", new="                        if success==False:\n                            success = (t > 0)\n\n                if success:"),
+    dict(property='C16', name='_jump serial path asks for a fresh RandomState', file=SIMF, old="                                                                      seed=seed,\n                                                                      pre_tau=self.pre_tau)", new="                                                                      seed=True,\n                                                                      pre_tau=self.pre_tau)"),
+    dict(property='C04', name='_jump starts the path one step late', file=SIMF, old="        xList = [x.copy()]          # states\n        tList = [t]                 # timepoints", new="        xList = [x.copy()]          # states\n        tList = [t + 1]                 # timepoints"),
+]
